@@ -256,7 +256,7 @@ int main(int argc, char **argv) {
             uint64_t rs = run_seed(base, prop, i);
             Plan p = gen_plan(prop, rs);
             simrt::fatal_context("prop=C%02d i=%llu runseed=%llu", prop, (unsigned long long)i, (unsigned long long)rs);
-            g_run_index = i;
+            g_run_index = i; simrt::run_deadline(60);
             RunResult rr = run_plan(p, &st);
             ++runs;
             if (rr.nontrivial) { ++nt; distinct.insert(rr.sig); }
@@ -270,6 +270,7 @@ int main(int argc, char **argv) {
             // a violated run may have corrupted this process (writes through dangling pointers): report and let the supervisor restart us
             if (stop_after_violation) break;
         }
+        simrt::run_deadline(0);
         print_summary(st, runs, viols, distinct, nt);
         const char *sigfile = arg(argc, argv, "--sigs", nullptr);
         if (sigfile) { std::ofstream f(sigfile, std::ios::binary); for (uint64_t h : distinct) f.write((const char *)&h, 8); }
